@@ -35,6 +35,19 @@ re-assembled by hand in the proof module (Lemmas/SrcArm.lean) and is part of wha
   local names are mapped to canonical ones given by the extractor, and parameters are listed alphabetically;
 * a fragment marked `int` contains only `+`, `-`, `*`, integer literals, names and comparisons; it is emitted over
   `Int` (index arithmetic), a test as a `Bool` (`decide`).
+
+Added for the boolean masks and formula slices of cnvlib/fix.py (round 4, C04):
+* `name["col"]` (a table column selected by a string literal) is the parameter `name_col`, read elementwise;
+* on masks (comparisons and what is built from them) `a | b`, `a & b`, `~a` are `∨`, `∧`, `¬`; `mask |= e` / `mask &= e` update
+  a mask local; a function translated with `translate_bool` returns the mask it ends with, as `decide (…)`;
+* `"col" in name` (does the table have that column) is the Boolean parameter `name_has_col`;
+* `name.mean()` is the parameter `name_mean` (like `name.median()`; a slice that uses such reductions also emits their
+  names, `<lean name>_reductions`, so that exchanging one reduction for another is visible); `e.clip(lo, hi)` is
+  `min hi (max lo e)`;
+* a SLICE (`emit_slices`) is the right-hand side of the k-th plain assignment `name = <expr>` found anywhere in a function
+  (or the unique call of a named method, e.g. `clip`), read with every other local as a free parameter, except locals bound
+  exactly once in the function to a numeric literal (inlined) and the names listed in `inline` (earlier slices).  A slice says
+  which FORMULA the function evaluates at that statement; it says nothing about the control flow around it.
 """
 from __future__ import annotations
 
@@ -62,13 +75,33 @@ class Fn:
         self.params = []             # Lean parameters in order of first use
         self.default_on_raise = default_on_raise
         self.rename = rename or {}
+        self.bparams = []            # Boolean parameters (`"col" in table`), in order of first use
+        self.boolean = False         # translate_bool: the function returns a mask
+        self.reductions = []         # `.mean()` / `.median()` read as parameters, in order of first use
+        self.base = {}               # parameter -> the Python name it derives from
 
     # -- parameters ------------------------------------------------------------------------------
-    def param(self, name):
+    def param(self, name, base=None):
         name = self.rename.get(name, name)
         if name not in self.params:
             self.params.append(name)
+            self.base[name] = base or name
         return name
+
+    def _ordered(self, names):
+        """order of the parameters of a mask / slice definition: by where the Python name they derive from is defined in
+        the function (position in the signature, else line of its first binding, else 0), then alphabetically -- stable
+        under a reordering of operands and under a renaming of locals"""
+        sig = {a.arg: k for k, a in enumerate(self.fn.args.args)}
+        first = {}
+        for n in ast.walk(self.fn):
+            if isinstance(n, ast.Name) and isinstance(n.ctx, ast.Store):
+                first[n.id] = min(first.get(n.id, (10 ** 9, 0)), (n.lineno, n.col_offset))
+
+        def key(p):
+            b = self.base.get(p, p)
+            return ((0, sig[b], 0) if b in sig else (1,) + first[b] if b in first else (2, 0, 0), p)
+        return sorted(names, key=key)
 
     # -- expressions -----------------------------------------------------------------------------
     def expr(self, e, env):
@@ -86,6 +119,10 @@ class Fn:
             # elementwise reading of `array[mask]`
             if isinstance(e.value, ast.Name) and isinstance(e.slice, ast.Name):
                 return self.expr(e.value, env)
+            # a table column selected by a string literal: `cnarr["log2"]` is the parameter cnarr_log2
+            if isinstance(e.value, ast.Name) and e.value.id not in env and isinstance(e.slice, ast.Constant) \
+                    and isinstance(e.slice.value, str) and e.slice.value.isidentifier():
+                return self.param(e.value.id + "_" + e.slice.value, base=e.value.id)
             raise Untranslatable("subscript " + ast.unparse(e))
         if isinstance(e, ast.UnaryOp):
             if isinstance(e.op, ast.USub):
@@ -126,7 +163,15 @@ class Fn:
                 return f"(if {x} < 0 then -{x} else {x})"
             if isinstance(e.func, ast.Attribute) and e.func.attr == "median" and not args \
                     and isinstance(e.func.value, ast.Name):
-                return self.param(e.func.value.id + "_median")
+                self.reductions.append("median")
+                return self.param(e.func.value.id + "_median", base=e.func.value.id)
+            if isinstance(e.func, ast.Attribute) and e.func.attr == "mean" and not args and not e.keywords \
+                    and isinstance(e.func.value, ast.Name) and e.func.value.id not in env:
+                self.reductions.append("mean")
+                return self.param(e.func.value.id + "_mean", base=e.func.value.id)
+            if isinstance(e.func, ast.Attribute) and e.func.attr == "clip" and len(args) == 2 and not e.keywords:
+                x = self.expr(e.func.value, env)
+                return f"(min {self.expr(args[1], env)} (max {self.expr(args[0], env)} {x}))"
             if f in ("max", "np.maximum") and len(args) == 2:
                 return f"(max {self.expr(args[0], env)} {self.expr(args[1], env)})"
             if f in ("min", "np.minimum") and len(args) == 2:
@@ -199,7 +244,34 @@ class Fn:
             raise Untranslatable("call " + ast.unparse(e))
         raise Untranslatable(ast.unparse(e))
 
+    def is_mask(self, e, env):
+        """a comparison, or `|` / `&` / `~` of masks, or a local holding one"""
+        if isinstance(e, ast.Compare):
+            return True
+        if isinstance(e, ast.BinOp) and isinstance(e.op, (ast.BitOr, ast.BitAnd)):
+            return self.is_mask(e.left, env) and self.is_mask(e.right, env)
+        if isinstance(e, ast.UnaryOp) and isinstance(e.op, ast.Invert):
+            return self.is_mask(e.operand, env)
+        if isinstance(e, ast.Name):
+            return env.get(e.id, "").startswith("MASK:")
+        return False
+
+    def bparam(self, name):
+        if name not in self.bparams:
+            self.bparams.append(name)
+        return name
+
     def cond(self, e, env):
+        if isinstance(e, ast.BinOp) and isinstance(e.op, (ast.BitOr, ast.BitAnd)) and self.is_mask(e, env):
+            op = " ∨ " if isinstance(e.op, ast.BitOr) else " ∧ "
+            return "(" + self.cond(e.left, env) + op + self.cond(e.right, env) + ")"
+        if isinstance(e, ast.UnaryOp) and isinstance(e.op, ast.Invert) and self.is_mask(e, env):
+            return f"(¬ {self.cond(e.operand, env)})"
+        if isinstance(e, ast.Compare) and len(e.ops) == 1 and isinstance(e.ops[0], (ast.In, ast.NotIn)) \
+                and isinstance(e.left, ast.Constant) and isinstance(e.left.value, str) and e.left.value.isidentifier() \
+                and isinstance(e.comparators[0], ast.Name) and e.comparators[0].id not in env:
+            b = self.bparam(e.comparators[0].id + "_has_" + e.left.value)
+            return f"({b} = true)" if isinstance(e.ops[0], ast.In) else f"({b} = false)"
         if isinstance(e, ast.BoolOp):
             op = " ∧ " if isinstance(e.op, ast.And) else " ∨ "
             return "(" + op.join(self.cond(v, env) for v in e.values) + ")"
@@ -254,6 +326,8 @@ class Fn:
         if isinstance(s, ast.Assert):
             return self.block(rest, env)
         if isinstance(s, ast.Return):
+            if self.boolean:
+                return self.cond(s.value, env)
             return self.expr(s.value, env)
         if isinstance(s, ast.Raise):
             if self.default_on_raise is None:
@@ -263,7 +337,7 @@ class Fn:
             t = s.targets[0]
             if isinstance(t, ast.Name):
                 # a mask (comparison) assigned to a name is kept as a condition
-                if isinstance(s.value, ast.Compare):
+                if isinstance(s.value, ast.Compare) or self.is_mask(s.value, env):
                     env = dict(env)
                     env[t.id] = "MASK:" + self.cond(s.value, env)
                     return self.block(rest, env)
@@ -279,6 +353,12 @@ class Fn:
                 env[t.value.id] = f"(if {mask[5:]} then {self.expr(s.value, env)} else {cur})"
                 return self.block(rest, env)
             raise Untranslatable("assignment to " + ast.unparse(t))
+        if isinstance(s, ast.AugAssign) and isinstance(s.op, (ast.BitOr, ast.BitAnd)) and isinstance(s.target, ast.Name) \
+                and env.get(s.target.id, "").startswith("MASK:") and self.is_mask(s.value, env):
+            env = dict(env)
+            op = " ∨ " if isinstance(s.op, ast.BitOr) else " ∧ "
+            env[s.target.id] = "MASK:(" + env[s.target.id][5:] + op + self.cond(s.value, env) + ")"
+            return self.block(rest, env)
         if isinstance(s, ast.AugAssign):
             op = {ast.Add: "+", ast.Sub: "-", ast.Mult: "*", ast.Div: "/"}.get(type(s.op))
             if op is None:
@@ -322,6 +402,104 @@ class Fn:
         head = f"def {lean_name} ({ps} : Rat) : Rat :=\n  {body}" if ordered else f"def {lean_name} : Rat :=\n  {body}"
         doc = f"/-- {comment} -/\n" if comment else ""
         return doc + head, ordered
+
+
+    def translate_bool(self, lean_name, comment=None):
+        """a function that returns a mask: Boolean parameters first (`"col" in table`), then the rational ones"""
+        self.boolean = True
+        body = self.block(list(self.fn.body), {})
+        if "MASK:" in body:
+            raise Untranslatable("a mask escaped into an arithmetic position")
+        ordered = self._ordered(self.params)
+        bord = sorted(self.bparams)
+        bs = f"({' '.join(bord)} : Bool) " if bord else ""
+        rs = f"({' '.join(ordered)} : Rat) " if ordered else ""
+        doc = f"/-- {comment} -/\n" if comment else ""
+        return doc + f"def {lean_name} {bs}{rs}: Bool :=\n  decide {body}", bord + ordered
+
+    def translate_slice(self, lean_name, target, inline=None, comment=None):
+        """the formula of one statement (see the reading rules at the top of the file)"""
+        stores = {}
+        for n in ast.walk(self.fn):
+            if isinstance(n, ast.Assign) and len(n.targets) == 1 and isinstance(n.targets[0], ast.Name):
+                stores.setdefault(n.targets[0].id, []).append(n)
+            elif isinstance(n, (ast.AugAssign, ast.For, ast.AnnAssign)) and isinstance(getattr(n, "target", None), ast.Name):
+                stores.setdefault(n.target.id, []).extend([None, None])
+        if target.startswith("call:"):
+            calls = [n for n in ast.walk(self.fn) if isinstance(n, ast.Call) and isinstance(n.func, ast.Attribute)
+                     and n.func.attr == target[5:]]
+            if len(calls) != 1:
+                raise Untranslatable(f"{len(calls)} calls of .{target[5:]}()")
+            node = calls[0]
+        else:
+            name, _, k = target.partition("#")
+            found = [a for a in stores.get(name, []) if a is not None]
+            found.sort(key=lambda a: (a.lineno, a.col_offset))
+            if len(found) != len(stores.get(name, [])) or int(k or 0) >= len(found) or (not k and len(found) != 1):
+                raise Untranslatable(f"assignment {target} not found (or `{name}` is also updated in place)")
+            node = found[int(k or 0)].value
+        env = dict(inline or {})
+        for nm, ss in stores.items():
+            if nm not in env and len(ss) == 1 and ss[0] is not None and isinstance(ss[0].value, ast.Constant) \
+                    and isinstance(ss[0].value.value, (int, float)) and not isinstance(ss[0].value.value, bool):
+                env[nm] = _rat(ss[0].value.value)
+        body = self.expr(node, env)
+        if "MASK:" in body:
+            raise Untranslatable("a mask escaped into an arithmetic position")
+        self.params = self._ordered(self.params)
+        ps = " ".join(self.params)
+        head = f"def {lean_name} ({ps} : Rat) : Rat :=\n  {body}" if self.params else f"def {lean_name} : Rat :=\n  {body}"
+        doc = f"/-- {comment} -/\n" if comment else ""
+        if self.reductions:
+            # which reductions over the column the formula uses (they are parameters of the definition)
+            head += f"\ndef {lean_name}_reductions : List String := [" + ", ".join(f'"{r}"' for r in self.reductions) + "]"
+        return doc + head, list(self.params)
+
+
+def emit_bool(repo, o, specs):
+    """like `emit`, for functions that return a mask"""
+    import os
+    from .translate import parse, find_func
+    for path, fname, lean, kw, comment in specs:
+        try:
+            tree, _src = parse(os.path.join(repo, path))
+            fn = find_func(tree, fname)
+            text, params = Fn(fn, **kw).translate_bool(lean, comment)
+        except (Untranslatable, KeyError, OSError, SyntaxError) as e:
+            o.lines.append(f"-- NOT TRANSLATED: {path}:{fname}: {type(e).__name__}: {str(e)[:200]}".replace("\n", " "))
+            o.info[lean] = {"error": str(e)[:200]}
+            continue
+        o.lines.append(text)
+        o.info[lean] = {"params": params}
+
+
+def emit_slices(repo, o, specs):
+    """specs: (file, function, target, lean name, {local: earlier lean name applied to its parameters}, rename, comment)"""
+    import os
+    from .translate import parse, find_func
+    done = {}
+    for path, fname, target, lean, inline, rename, comment in specs:
+        try:
+            tree, _src = parse(os.path.join(repo, path))
+            fn = find_func(tree, fname)
+            inl = {}
+            for local, earlier in (inline or {}).items():
+                if earlier not in done:
+                    raise Untranslatable(f"slice {earlier} (inlined for `{local}`) was not translated")
+                inl[local] = "(" + " ".join([earlier] + done[earlier]) + ")"
+            f = Fn(fn, rename=rename)
+            # the parameters of an inlined slice are parameters of this one (same names)
+            for earlier in (inline or {}).values():
+                for q in done[earlier]:
+                    f.param(q)
+            text, params = f.translate_slice(lean, target, inl, comment)
+        except (Untranslatable, KeyError, OSError, SyntaxError, ValueError) as e:
+            o.lines.append(f"-- NOT TRANSLATED: {path}:{fname}:{target}: {type(e).__name__}: {str(e)[:200]}".replace("\n", " "))
+            o.info[lean] = {"error": str(e)[:200]}
+            continue
+        done[lean] = params
+        o.lines.append(text)
+        o.info[lean] = {"params": params}
 
 
 def emit(repo, o, specs):
